@@ -1,13 +1,15 @@
 #!/bin/bash
-# usage: tools/try_patch.sh <patch.diff> <prop> [<prop>...]   -- applies the patch to /repo, runs quick checks, always reverts
+# usage: tools/try_patch.sh <patch.diff> <prop> [<prop>...]
+# Applies the patch to a scratch worktree of /repo HEAD (never to /repo itself), runs the quick checks against it (AU_REPO), removes the worktree.
 patch="$1"; shift
 cd /verif
-git -C /repo diff --quiet || { echo "/repo has uncommitted changes; aborting"; exit 3; }
-git -C /repo apply "$patch" || { echo "patch does not apply"; exit 3; }
-trap 'git -C /repo checkout -- . ' EXIT
+wt=/tmp/au_try_$$
+git -C /repo worktree add -q --detach $wt HEAD || exit 3
+trap 'git -C /repo worktree remove --force '$wt' >/dev/null 2>&1' EXIT
+git -C $wt apply "$patch" || { echo "patch does not apply"; exit 3; }
 for p in "$@"; do
   start=$(date +%s)
-  VERIF_SEED=${VERIF_SEED:-1} timeout 1800 python3-vt run.py "$p" --tier ${TIER:-quick} > /tmp/try_$p.log 2>&1
+  AU_REPO=$wt VERIF_SEED=${VERIF_SEED:-1} timeout 3600 python3-vt run.py "$p" --tier ${TIER:-quick} > /tmp/try_$p.log 2>&1
   rc=$?
   echo "== $p rc=$rc ($(( $(date +%s) - start ))s)  $(grep -c VIOLATION /tmp/try_$p.log) violation line(s)"
   grep -E "failure:|BROKEN|KNOWN-FINDING" /tmp/try_$p.log | cut -c1-260 | head -4
